@@ -41,7 +41,8 @@ def run_one(prop, m, keep_output=False):
         return dict(name=m['name'], ok=bool(ok), rc=r.returncode, expect=exp, violations=len(viol),
                     first=(viol[0].replace(d, '<scratch>') if viol else ''),
                     confirmed=sum(1 for l in viol if 'no-failing-input-found' not in l),
-                    tail=r.stdout[-1500:].replace(d, '<scratch>') if (keep_output or not ok) else '')
+                    tail=(r.stdout[-1500:] + '\n' + '\n'.join(l for l in r.stderr.splitlines() if 'Warning' not in l and l.strip() != '"""')[-1200:]).replace(d, '<scratch>')
+                    if (keep_output or not ok) else '')
     finally:
         shutil.rmtree(d, ignore_errors=True)
 
